@@ -628,6 +628,7 @@ fn record(case: &Case, out: &SimOut<Obs>, tally: &mut Tally, scen_hash: u64) {
     tally.bump("simulated_time_us", c.clock_ns.saturating_sub(1_000_000_000) / 1000);
     tally.bump("random_draws_adversarial", c.n_rng_adversarial);
     tally.bump("par_calls", c.n_par_calls);
+    tally.bump("work_steals_while_blocked_ran", c.n_steals_ran);
     tally.bump(&format!("pool_size_{:02}", case.cfg.pool), 1);
     if case.warm_up {
         tally.bump("history_plans_observed_after_a_previous_plan", 1);
